@@ -26,6 +26,7 @@ struct AllocState {
   bool counting = false;      // true only between an op's begin and end marks
   long count = 0;             // allocations seen while counting
   long fail_at = -1;          // index of the allocation that fails (-1: none)
+  long fail_at2 = -1;         // a second, later index that fails too (pairs of failures)
   bool fail_from = false;     // if set, every allocation with index >= fail_at fails
   long fired = 0;             // how many allocations were made to fail
 };
